@@ -56,6 +56,8 @@ type Fn struct {
 	rangeBody   map[int32]map[int32]bool
 	fresh       map[types.Object]bool
 	inlVars     map[types.Object]bool // parameters, results and locals of expanded helpers, result temporaries
+	tsClause    map[*ast.CaseClause]*ast.TypeSwitchStmt
+	preOf       map[ast.Node]nodeRef // node whose call was expanded -> where its evaluation starts
 	liveIn    map[int32]map[types.Object]bool
 	locals    map[types.Object]bool
 	// PostFacts: formulas that hold right after the given CFG node (facts
@@ -121,7 +123,7 @@ func (e *Engine) prepare(info *types.Info, name string, node ast.Node, body *ast
 	f := &Fn{Eng: e, Info: info, Name: name, Node: node, Body: body, Type: typ,
 		volatile: map[types.Object]bool{}, addrTaken: map[types.Object]bool{}, where: map[ast.Node]nodeRef{}, whereAll: map[ast.Node][]nodeRef{}, preds: map[int32][]edge{},
 		synthetic: map[ast.Node]bool{}, retMarker: map[ast.Node]bool{}, inlAt: map[ast.Node][]*InlSite{}, inlCall: map[*ast.CallExpr]bool{},
-		rootBlock: map[*cfg.Block]bool{}, extraLocals: map[types.Object]bool{}, rangeBody: map[int32]map[int32]bool{}}
+		rootBlock: map[*cfg.Block]bool{}, extraLocals: map[types.Object]bool{}, rangeBody: map[int32]map[int32]bool{}, preOf: map[ast.Node]nodeRef{}}
 	f.CFG = cfg.New(body, func(c *ast.CallExpr) bool { return !NoReturn(info, c) })
 	f.expand(pkg)
 	// variables assigned inside nested literals, and address-taken variables
@@ -169,6 +171,19 @@ func (e *Engine) prepare(info *types.Info, name string, node ast.Node, body *ast
 		ast.Inspect(bd, walk)
 	}
 	f.fresh = ownedFresh(info, f.Bodies())
+	f.tsClause = map[*ast.CaseClause]*ast.TypeSwitchStmt{}
+	for _, bd := range f.Bodies() {
+		ast.Inspect(bd, func(n ast.Node) bool {
+			if ts, ok := n.(*ast.TypeSwitchStmt); ok {
+				for _, cl := range ts.Body.List {
+					if cc, ok := cl.(*ast.CaseClause); ok {
+						f.tsClause[cc] = ts
+					}
+				}
+			}
+			return true
+		})
+	}
 	for _, b := range f.CFG.Blocks {
 		if !b.Live {
 			continue
@@ -582,6 +597,18 @@ func (f *Fn) Locate(n ast.Node) (*cfg.Block, int, ast.Node, bool) {
 	return bref.b, bref.idx, best, true
 }
 
+// locateStart is Locate for "start running just before n": when a call inside n was expanded,
+// the evaluation of n starts at the bindings of that call, not where n itself now sits.
+func (f *Fn) locateStart(n ast.Node) (*cfg.Block, int, ast.Node, bool) {
+	b, idx, root, ok := f.Locate(n)
+	if ok {
+		if pre, have := f.preOf[root]; have {
+			return pre.b, pre.idx, root, true
+		}
+	}
+	return b, idx, root, ok
+}
+
 // Cond returns the branch condition of a two-successor block, if it has one.
 func (f *Fn) Cond(b *cfg.Block) ast.Expr {
 	if len(b.Succs) != 2 || len(b.Nodes) == 0 {
@@ -634,7 +661,7 @@ func (f *Fn) Analyze(assume *Formula) *Analysis {
 
 // From runs forward from just before the CFG node n with the given state.
 func (f *Fn) From(n ast.Node, st State) *Analysis {
-	b, idx, _, ok := f.Locate(n)
+	b, idx, _, ok := f.locateStart(n)
 	a := &Analysis{Fn: f, In: map[int32]State{}, out: map[int32][]State{}, visits: map[int32]int{}}
 	if !ok {
 		return a
@@ -663,7 +690,7 @@ func (f *Fn) FromAfterUntil(n ast.Node, st State, stops ...ast.Node) *Analysis {
 // FromUntil runs forward from just before the CFG node containing n and does
 // not continue past the CFG nodes containing any of the stop nodes.
 func (f *Fn) FromUntil(n ast.Node, st State, stops ...ast.Node) *Analysis {
-	b, idx, _, ok := f.Locate(n)
+	b, idx, _, ok := f.locateStart(n)
 	a := &Analysis{Fn: f, In: map[int32]State{}, out: map[int32][]State{}, visits: map[int32]int{}, StopAt: map[ast.Node]bool{}}
 	if !ok {
 		return a
@@ -922,8 +949,65 @@ func (a *Analysis) flowBlock(b *cfg.Block, idx int, st State) []State {
 		for i := range outs {
 			outs[i] = st
 		}
+		// a type switch test (go/cfg issues the two edges without a condition node):
+		// towards the case body the dynamic type is one of the listed types, towards the next test none of them
+		if len(b.Succs) == 2 && b.Succs[0].Kind == cfg.KindSwitchCaseBody {
+			if cc, ok := b.Succs[0].Stmt.(*ast.CaseClause); ok && cc.List != nil {
+				if ts := f.tsClause[cc]; ts != nil {
+					if x := typeSwitchOperand(ts); x != nil {
+						xt := a.term(x)
+						if f.Eng.Canon.PureTerm(xt) {
+							var is []*Formula
+							nilCase := false
+							for _, te := range cc.List {
+								if tv, ok := f.Info.Types[te]; ok && tv.IsNil() {
+									nilCase = true
+									is = append(is, FNil(xt))
+									continue
+								}
+								is = append(is, FBool(TypeIs(xt, f.Info.TypeOf(te))))
+							}
+							_ = nilCase
+							yes := st.Assume(Or(is...))
+							// the clause variable is the asserted value
+							if len(cc.List) == 1 {
+								if v, ok := f.Info.Implicits[cc].(*types.Var); ok && !f.volatile[v] {
+									if tv, ok := f.Info.Types[cc.List[0]]; !ok || !tv.IsNil() {
+										yes = a.killVar(yes, v)
+										yes = yes.Assume(FEq(Var(v), mk('t', types.TypeString(f.Info.TypeOf(cc.List[0]), nil), nil, f.Info.TypeOf(cc.List[0]), xt)))
+									}
+								}
+							}
+							outs[0] = a.clean(yes)
+							outs[1] = a.clean(st.Assume(Not(Or(is...))))
+						}
+					}
+				}
+			}
+		}
 	}
 	return outs
+}
+
+// TypeIs is the boolean term "the dynamic type of x is t".
+func TypeIs(x *Term, t types.Type) *Term {
+	return mk('k', "typeis:"+types.TypeString(t, nil), nil, types.Typ[types.Bool], x)
+}
+
+func typeSwitchOperand(ts *ast.TypeSwitchStmt) ast.Expr {
+	var e ast.Expr
+	switch a := ts.Assign.(type) {
+	case *ast.AssignStmt:
+		if len(a.Rhs) == 1 {
+			e = a.Rhs[0]
+		}
+	case *ast.ExprStmt:
+		e = a.X
+	}
+	if ta, ok := ast.Unparen(e).(*ast.TypeAssertExpr); ok {
+		return ta.X
+	}
+	return nil
 }
 
 func (a *Analysis) rangeKill(st State, rs *ast.RangeStmt) State {
@@ -1294,6 +1378,31 @@ func (a *Analysis) step(st State, n ast.Node) State {
 					st = st.Assume(FEq(lts[i], rt))
 				}
 			}
+		} else if ta := commaOkAssert(x); ta != nil {
+			// v, ok := x.(T): ok tells the dynamic type, and v is the asserted value when ok
+			xt := a.term(ta.X)
+			tt := a.Fn.Info.TypeOf(ta.Type)
+			for _, l := range x.Lhs {
+				st = a.killLHS(st, l)
+			}
+			if st.Reachable() && a.Fn.Eng.Canon.PureTerm(xt) && tt != nil {
+				is := FBool(TypeIs(xt, tt))
+				yes, no := st.Assume(is), st.Assume(Not(is))
+				if okID, isID := ast.Unparen(x.Lhs[1]).(*ast.Ident); isID && okID.Name != "_" {
+					if oo := a.Fn.Info.ObjectOf(okID); oo != nil && !a.Fn.volatile[oo] {
+						yes, no = yes.Assume(FBool(Var(oo))), no.Assume(Not(FBool(Var(oo))))
+					}
+				}
+				if vID, isID := ast.Unparen(x.Lhs[0]).(*ast.Ident); isID && vID.Name != "_" {
+					if vo := a.Fn.Info.ObjectOf(vID); vo != nil && !a.Fn.volatile[vo] && !xt.Mentions(func(s *Term) bool { return s.K == 'v' && s.Obj == vo }) {
+						yes = yes.Assume(FEq(Var(vo), mk('t', types.TypeString(tt, nil), nil, tt, xt)))
+						if z := zeroFormula(Var(vo)); z != nil {
+							no = no.Assume(z)
+						}
+					}
+				}
+				st = Join(yes, no)
+			}
 		} else if s := a.tupleSite(x); s != nil {
 			// v1, v2 := helper(...) with the helper expanded: each variable takes its result temporary
 			for k, l := range x.Lhs {
@@ -1337,6 +1446,18 @@ func (a *Analysis) step(st State, n ast.Node) State {
 		st = st.Assume(pf)
 	}
 	return a.clean(st)
+}
+
+// commaOkAssert: the statement is `v, ok := x.(T)` (or with =).
+func commaOkAssert(x *ast.AssignStmt) *ast.TypeAssertExpr {
+	if len(x.Lhs) != 2 || len(x.Rhs) != 1 {
+		return nil
+	}
+	ta, ok := ast.Unparen(x.Rhs[0]).(*ast.TypeAssertExpr)
+	if !ok || ta.Type == nil {
+		return nil
+	}
+	return ta
 }
 
 // tupleSite: the statement assigns the results of one expanded call.
